@@ -831,3 +831,73 @@ def ordering_valuations(cmps):
 def eval_reach(body, atom_vals, no_nodes=(), start=0, env0=None):
     """eval_guard that never enters the blocks in no_nodes; returns (reachable blocks, return values)"""
     return eval_guard(body, atom_vals, start=start, env0=env0, no_nodes=set(no_nodes))
+
+
+# ------------------------------------------------------------------ integer compare switches
+def int_compare_switches(body, src_local):
+    """SwitchInt blocks deciding on `src_local <op> const` (through casts / copies).
+    returns [(sw_bb, op, const, target_when_true, target_when_false, src_is_lhs)]"""
+    alias = {src_local}
+    changed = True
+    while changed:
+        changed = False
+        for bl in body.blocks:
+            for s in bl["s"]:
+                if s[0] == "A" and len(s[1]) == 1 and s[1][0] not in alias and s[2][0] in ("use", "cast"):
+                    op = s[2][1] if s[2][0] == "use" else s[2][2]
+                    p = op_place(op)
+                    if p is not None and len(p) == 1 and p[0] in alias:
+                        alias.add(s[1][0])
+                        changed = True
+    cmp_locals = {}
+    for bl in body.blocks:
+        for s in bl["s"]:
+            if s[0] == "A" and len(s[1]) == 1 and s[2][0] == "bin" and s[2][1] in ("Eq", "Ne", "Lt", "Le", "Gt", "Ge"):
+                a, b = s[2][2], s[2][3]
+                la, lb = op_local(a), op_local(b)
+                ka, kb = op_const(a), op_const(b)
+                if la in alias and kb is not None and "v" in kb:
+                    cmp_locals[s[1][0]] = (s[2][1], kb["v"], True)
+                elif lb in alias and ka is not None and "v" in ka:
+                    cmp_locals[s[1][0]] = (s[2][1], ka["v"], False)
+    # propagate through Not / copies
+    neg = {l: False for l in cmp_locals}
+    changed = True
+    while changed:
+        changed = False
+        for bl in body.blocks:
+            for s in bl["s"]:
+                if s[0] == "A" and len(s[1]) == 1 and s[1][0] not in cmp_locals:
+                    if s[2][0] == "use":
+                        l = op_local(s[2][1])
+                        if l in cmp_locals and len(op_place(s[2][1])) == 1:
+                            cmp_locals[s[1][0]] = cmp_locals[l]
+                            neg[s[1][0]] = neg[l]
+                            changed = True
+                    elif s[2][0] == "un" and s[2][1] == "Not":
+                        l = op_local(s[2][2])
+                        if l in cmp_locals:
+                            cmp_locals[s[1][0]] = cmp_locals[l]
+                            neg[s[1][0]] = not neg[l]
+                            changed = True
+    out = []
+    for bb in body.live_blocks():
+        t = body.term(bb)
+        if t["t"] == "sw":
+            l = op_local(t["d"])
+            if l in cmp_locals and len(op_place(t["d"])) == 1:
+                e = bool_edges(body, bb)
+                if e is None:
+                    continue
+                tt, ft = e
+                if neg[l]:
+                    tt, ft = ft, tt
+                op, k, lhs = cmp_locals[l]
+                out.append((bb, op, k, tt, ft, lhs))
+    return out
+
+
+def int_relation_holds(op, k, lhs, value):
+    """truth of `value op k` (or `k op value` when not lhs)"""
+    a, b = (value, k) if lhs else (k, value)
+    return {"Eq": a == b, "Ne": a != b, "Lt": a < b, "Le": a <= b, "Gt": a > b, "Ge": a >= b}[op]
